@@ -1,22 +1,24 @@
+\* the gate protocol with two threads that both read, iterate and write on a nearly full map: every open transaction of
+\* every thread is counted, the enlargement happens only when none is open, a thread holding one never parks
 SPECIFICATION MCSpec
 CONSTANTS
-  NS = 2
-  NK = 2
-  Vals = {1, 2}
-  MaxDepth = 3
+  NS = 1
+  NK = 1
+  Vals = {1}
+  MaxDepth = 1
   NR = 1
-  NT = 1
-  Writers = {1}
-  RdThreads = {1}
+  NT = 2
+  Writers = {1, 2}
+  RdThreads = {1, 2}
   MapInit = 10
-  UsedInit = 0
+  UsedInit = 9
   Chunk = 10
-  PutCost = 0
+  PutCost = 1
   TxnBeforeGate = FALSE
   NestedCloseClearsMark = FALSE
   ReadNotCounted = FALSE
   BatchMax = 1
-  MaxOps = 8
+  MaxOps = 14
   WithReads = FALSE
   Stride = 1
   Offset = 0
